@@ -54,7 +54,12 @@ func c18Build(cs c18Case) c18File {
 	f := c18File{tailLen: cs.Payload, tailF: c18Tail(cs.Format)}
 	switch cs.Format {
 	case "PNG":
-		s := pngSpecFor(uint32(10+rng.Intn(5000)), uint32(10+rng.Intn(5000)), 6, 8, 0, rng)
+		// every colour type; for indexed colour the PLTE (and tRNS) chunks follow whatever stands
+		// between the profile and IDAT
+		td := [][2]uint8{{6, 8}, {3, 8}, {2, 16}, {3, 2}, {0, 8}, {4, 8}}[int(cs.Seed>>9)%6]
+		s := pngSpecFor(uint32(10+rng.Intn(5000)), uint32(10+rng.Intn(5000)), td[0], td[1], 0, rng)
+		plte := s.Post
+		s.Post = nil
 		if icc != nil {
 			// every zlib level: the two header bytes differ (78 01 / 78 5E / 78 9C / 78 DA) and so does the stream
 			s.ICC = &imggen.PNGICC{Name: latin1(rng, []int{1, 4, 78, 79}[int(cs.Seed>>3)%4]), Profile: icc, Level: []int{1, -2, 0, 2, 5, 6, 9, -1}[int(cs.Seed>>5)%8]}
@@ -107,6 +112,7 @@ func c18Build(cs c18Case) c18File {
 				s.Pre = anc[:1]
 			}
 		}
+		s.Post = append(s.Post, plte...)
 		s.IDAT = nil
 		s.NoIEND = true
 		b, t := s.Build()
